@@ -239,7 +239,7 @@ static void sg_add(vh_rng_t *r, sg_plan_t *p, cfg_sys_t *sys, int kind)
       static const char *const rc[]    = { "file bind", "bind file", "file", "bind" };
       static const char *const nss[]   = { "files dns", "dns files", "files", "dns" };
       static const char *const netsv[] = { "local, bind", "bind, local", "local", "bind" };
-      char                     buf[120];
+      char                     buf[300];
       strcpy(p->expect[kind], eff[order]);
       if (how == 0) {
         cfg_bb_str(&p->resolv, vh_chance(r, 1, 2) ? "lookup" : "hostresorder");
@@ -250,8 +250,18 @@ static void sg_add(vh_rng_t *r, sg_plan_t *p, cfg_sys_t *sys, int kind)
       } else if (how == 1) {
         static const char *const nss_tab[] = { "files\tdns", "dns\tfiles", "files", "dns" };
         int                      sp        = (int)vh_below(r, 3);
-        snprintf(buf, sizeof(buf), "passwd: files\nhosts:%s%s%s\n", sp == 0 ? " " : sp == 1 ? "\t" : "   \t",
-                 sp == 1 ? nss_tab[order] : nss[order], sp == 2 ? " \t" : "");
+        /* lines as distributions ship them: services this library does not implement and
+         * [STATUS=action] items stand between the two it knows */
+        static const char *const nss_real[] = { "files mdns4_minimal [NOTFOUND=return] dns myhostname",
+                                                "dns [!UNAVAIL=return] files myhostname", "files myhostname",
+                                                "mymachines dns" };
+        if (vh_chance(r, 1, 4)) {
+          snprintf(buf, sizeof(buf), "# /etc/nsswitch.conf\npasswd:         files systemd\nhosts:          %s\nnetworks:       files\n",
+                   nss_real[order]);
+        } else {
+          snprintf(buf, sizeof(buf), "passwd: files\nhosts:%s%s%s\n", sp == 0 ? " " : sp == 1 ? "\t" : "   \t",
+                   sp == 1 ? nss_tab[order] : nss[order], sp == 2 ? " \t" : "");
+        }
         cfg_sys_set_file(sys, CF_NSSWITCH, buf, strlen(buf));
         p->via[kind] = 3;
       } else {
